@@ -305,6 +305,7 @@ int process_start(pid_t *process, const char *const *argv, struct process_option
   ENS("C10/process_start.fork_mode_child_streams", IMPLIES(g.in_child, IS_OPEN(0) && IS_OPEN(1) && IS_OPEN(2) && g.fds.obj[0] == gc.want_obj[0] && g.fds.obj[1] == gc.want_obj[1] && g.fds.obj[2] == gc.want_obj[2]))
   ENS("C12/process_start.fork_mode_child_clean_signal_state", IMPLIES(g.in_child, g.sigmask == 0 && DISP_ALL_DEFAULT_PUB))
   ENS("C03/process_start.fork_mode_child_cwd", IMPLIES(g.in_child, g.cwd_id == gc.want_cwd_id))
+  ENS("C03/process_start.fork_mode_child_environment_is_the_requested_live_vector", IMPLIES(g.in_child, environ != NULL && environ == g.env_ptr && g.env_a == gc.want_env_a && g.env_b == gc.want_env_b && g.last_freed_vec != (void *) environ))
   ;
 
 #endif
